@@ -44,7 +44,9 @@ CFG = {
             "{0,1,15,16,17,33,100}; n sampled cases: 60% n in 41..160 with pool sizes up to 400 (near n, 2n, primes), "
             "40% n log-uniform in 200..2e6 with pools up to 4096 judged through a run-length summary; marching: 8 fixed "
             "canvases (1, 2, 8 blocks, negative chunk, box ending on a chunk boundary, nothing crossing the cutoff, two "
-            "overlapping fields, empty canvas) + 24 random ones in thorough; distinct by case description; non-trivial = "
+            "overlapping fields, empty canvas), seam canvases (signed-distance spheres whose min/max along each axis lies "
+            "inside, a hair inside, just short of or just across the one-cell seam between two blocks, borders -100..200, "
+            "2 tripods + 3 mixed + 3 random in quick, 60 + 40 random in thorough) + 24 random large ones in thorough; distinct by case description; non-trivial = "
             "n >= 2 and pool >= 2 (mesh) / >= 2 blocks and >= 1 triangle (marching)",
     "trusted": ["Go race detector (-race build of the same harness, GORACE=halt_on_error=0): reports are attributed to the "
                 "case that was executing; absence of a report is evidence for the sampled schedules only",
